@@ -903,6 +903,8 @@ class QGen:
         if self.f.range_ and self.chance(1, 5):
             # the outer level is a range of numbers (possibly as long as a collection), the inner one a range or a collection
             x = self.newvar(scope, "x")
+            while x in {n for n, _ in scope}:
+                x += "x"  # (no shadowing here: the inner level may mention any name of the scope)
             sc2 = self.bind(scope, x, TNum("int"))
             hi = self.pick(["2", "3", "1"])
             os0 = self.objseq(scope, 0)
